@@ -15,6 +15,7 @@ package stringy
 //@ func (a CommandBasedAuthorizer) evaluate() (ok bool)
 //@   requires a.loggerProvider != nil
 //@   modifies *
+//@   ensures[C11] len(a.user.Commands) == 0 ==> !ok
 //@   loop 1 invariant -1 <= rangeindex && rangeindex < len(a.user.Commands)
 //@   loop 2 invariant -1 <= rangeindex && rangeindex < len(c.Match)
 
@@ -24,6 +25,7 @@ package stringy
 //@ func (a Authorizer) Handle(response tq.Response, request tq.Request)
 //@   implements tq.Handler.Handle
 //@   requires a.loggerProvider != nil
+//@   ensures[C11] ghost.hcalls == old(ghost.hcalls) + 1 ==> (ghost.authorStatus == tq.AuthorStatusFail || ghost.authorStatus == tq.AuthorStatusError)
 
 //@ func (a CommandBasedAuthorizer) Handle(response tq.Response, request tq.Request)
 //@   implements tq.Handler.Handle
